@@ -21,7 +21,7 @@ RULE = ("generated callback histories: the peer sends n in 0..30 unique items an
         "_local_receive, _local_close, _no_longer_opened, _finished_receiving, _thread_receiver. distinct = distinct (history, schedule) cases")
 ASSUMPTIONS = ["an endmarker not delivered within 6 s after the stream ended counts as never delivered"]
 MINIMUM = {"histories": 400, "callback_invocations": 3000, "sweep_fired": 80, "connection_loss_histories": 40}
-SHARD_TIMEOUT = {"quick": 200, "thorough": 2400}
+SHARD_TIMEOUT = {"quick": 120, "thorough": 2400}
 
 ENDINGS = ["close", "close_error", "end_of_exec", "connection_loss"]
 WHENS = ["before", "after_j", "after_close", "concurrent"]
